@@ -216,17 +216,21 @@ func builtinJSONStringifyWalk(ctx builtinJSONStringifyContext, key string, holde
 		obj := value.object()
 		if toJSON := obj.get("toJSON"); toJSON.IsFunction() {
 			value = toJSON.call(ctx.call.runtime, value, key)
-		} else if obj.objectClass.marshalJSON != nil {
+		}
+	}
+
+	if ctx.replacerFunction != nil {
+		value = ctx.replacerFunction.call(ctx.call.runtime, objectValue(holder), key, value)
+	}
+
+	if value.IsObject() {
+		if obj := value.object(); obj.objectClass.marshalJSON != nil {
 			// If the object is a GoStruct or something that implements json.Marshaler
 			marshaler := obj.objectClass.marshalJSON(obj)
 			if marshaler != nil {
 				return marshaler, true
 			}
 		}
-	}
-
-	if ctx.replacerFunction != nil {
-		value = ctx.replacerFunction.call(ctx.call.runtime, objectValue(holder), key, value)
 	}
 
 	if value.kind == valueObject {
